@@ -411,7 +411,22 @@ def _contains_sym(obj):
     return False
 
 
+class _UfuncLike:
+    """callable with the ufunc attributes some callers use (np.maximum.reduce(shape tuples) etc.)"""
+
+    def __init__(self, fn, ufunc):
+        self._fn, self._uf = fn, ufunc
+
+    def __call__(self, *a, **k):
+        return self._fn(*a, **k)
+
+    def __getattr__(self, k):
+        return getattr(self._uf, k)
+
+
 PROXY = NPProxy()
+PROXY.maximum = _UfuncLike(PROXY.maximum, _np.maximum)
+PROXY.minimum = _UfuncLike(PROXY.minimum, _np.minimum)
 
 # ---------------------------------------------------------------------------
 # replacement of directly imported names:  id(original) -> replacement
@@ -468,6 +483,16 @@ def symbolic_mode(extra_modules=(), prefixes=_PREFIXES):
                 if any(a is not b for a, b in zip(new, val.__defaults__)):
                     saved_defaults.append((val, val.__defaults__))
                     val.__defaults__ = new
+    # names that are imported at call time (e.g. `from scipy.special import erf` inside a function)
+    try:
+        import scipy.special as _sps
+
+        r = _REPLACE.get(id(_sps.erf))
+        if r is not None:
+            saved.append((vars(_sps), "erf", _sps.erf))
+            _sps.erf = r[1]
+    except ImportError:
+        pass
     _ACTIVE.append((saved, saved_defaults))
     try:
         yield PROXY
